@@ -468,6 +468,51 @@ class Idempotence(object):
             self._no_future(drv)
 
 
+class DerivedReads(object):
+    """C08 b, against the ground truth: the frames a strategy assembles for the user (positions, outlays) equal what its securities hold and
+    recorded - also when the pending changes were flushed by SOME OTHER read or a redundant update first (a frame cached on an earlier read of
+    the same date must not be served after the tree moved on)."""
+
+    def __init__(self, cs):
+        self.rng = random.Random(cs ^ 0xD3A1)
+
+    def after_op(self, drv, op, info):
+        root = drv.root
+        r = self.rng.random()
+        try:
+            if r < 0.4:
+                root.value                     # flush through another accessor
+            elif r < 0.7:
+                root.update(drv.dt)            # flush through a redundant update
+            for s in ins.strategies(root):
+                for prop in ("positions", "outlays"):
+                    got = getattr(s, prop)
+                    exp = {}
+                    for x in s.members:
+                        if isinstance(x, SecurityBase):
+                            v = getattr(x, prop)
+                            exp[x.name] = exp[x.name] + v if x.name in exp else v
+                    bump(drv.cnt, "derived_read_evals")
+                    bad = None
+                    if sorted(got.columns) != sorted(exp):
+                        bad = {"columns": sorted(got.columns), "securities": sorted(exp)}
+                    else:
+                        for k, v in exp.items():
+                            g = got[k]
+                            if len(g) != len(v) or not np.array_equal(np.nan_to_num(g.to_numpy(dtype=float), nan=0.0), np.nan_to_num(v.to_numpy(dtype=float), nan=0.0)):
+                                bad = {"column": k, "frame_tail": list(g.values)[-3:], "security_tail": list(v.values)[-3:]}
+                                break
+                    if bad:
+                        drv.violation("c08_stale_frame", after=op, node=s.full_name, prop=prop, flushed_by=("value" if r < 0.4 else "update" if r < 0.7 else "the read itself"), **bad)
+                        return
+        except ZeroDivisionError:
+            return
+        except Exception as e:
+            if common.is_guard_exc(e):
+                return
+            raise
+
+
 class Freshness(object):
     """C08 b: with pending changes, the first read of ONE property equals that read after an explicit update (on deep copies)."""
 
